@@ -13,8 +13,11 @@ import (
 
 	"pgregory.net/rapid"
 	"verif/harness/corpus"
+	"verif/harness/eng"
 	"verif/harness/fmtx"
+	"verif/harness/gen"
 	"verif/harness/h"
+	"verif/harness/m"
 )
 
 // TestMulti: `evy fmt` with several file arguments. -c exits zero exactly when every
@@ -130,6 +133,12 @@ func checkMulti(c Case) *h.Failure {
 			return mk("mode-changed", fmt.Sprintf("%s: permission bits changed from %04o to %04o", f.Name, f.Mode, after.mode))
 		}
 	}
+	if code == 0 {
+		// what -w has written is in formatted form: -c accepts all of it
+		if code2, out2, ok := exec1(dir, append([]string{"fmt", "-c"}, names...)); ok && code2 != 0 {
+			return mk("written-text-rejected", fmt.Sprintf("evy fmt -c rejects the files that evy fmt -w has just written (exit %d): %s", code2, out2))
+		}
+	}
 	return nil
 }
 
@@ -144,7 +153,7 @@ func TestMulti(t *testing.T) {
 		c := Case{}
 		var kinds []string
 		for i := 0; i < n; i++ {
-			kind := rapid.SampledFrom([]string{"formatted", "formatted", "unformatted", "unformatted", "rejected", "no-final-newline"}).Draw(t, "kind")
+			kind := rapid.SampledFrom([]string{"formatted", "formatted", "unformatted", "unformatted", "rejected", "no-final-newline", "model", "model"}).Draw(t, "kind")
 			src := all[rapid.IntRange(0, len(all)-1).Draw(t, "prog")].Src
 			f := MultiFile{Name: fmt.Sprintf("f%d.evy", i), Mode: rapid.SampledFrom([]uint32{0o644, 0o600, 0o755, 0o664}).Draw(t, "mode")}
 			switch kind {
@@ -155,6 +164,10 @@ func TestMulti(t *testing.T) {
 				}
 			case "unformatted":
 				f.Content = "print   1   2\n" + src
+			case "model":
+				cfg := gen.Default
+				cfg.ExprDepth, cfg.BlockDepth, cfg.MaxStmts = 2, 2, 4
+				f.Content, _ = m.Render(gen.New(t, cfg).Program(), eng.RapidLayout{T: t})
 			case "rejected":
 				f.Content = rapid.SampledFrom([]string{"print x\n", "x := \n", "func\n", "if true\n"}).Draw(t, "bad")
 			default:
